@@ -417,6 +417,11 @@ func runC03(r *Report, tier string) {
 		}
 	}
 	od.check(disj && strings.Join(got, ",") == strings.Join(want, ","), "contexts "+strings.Join(got, ","), fmt.Sprintf("context sets %v (disjoint across kinds: %v), expected exactly %v", got, disj, want))
+	// the verdict depends on protected bytes only, and on the bytes received
+	r.rule("R04.2", "(shared with C04) the verification gate consults the protected alg through the one accessor and succeeds only for alg equal or alg absent with external data; it writes nothing.")
+	checkGatesOnly(r)
+	r.rule("R19.3", "(shared with C19) decoders keep no window into the caller's buffer: what Verify reads later is what was received.")
+	checkInputNotRetained(r, "R19.3")
 }
 
 // exitID names an exit without line numbers: ordinal among the function's
